@@ -842,6 +842,80 @@ enum Item {
 }
 
 /// What a held connection has sent before going silent.
+/// Descriptor exhaustion: with the process's RLIMIT_NOFILE lowered to just above what is open
+/// now, connections are opened (and left idle) until none can be created; one is then closed
+/// and replaced a few times, so that a connection waits in the listener's backlog while the
+/// process has no free descriptor and the server's accept(2) fails with EMFILE.  The burst is
+/// then dropped and the limit restored: a well-formed request on a fresh connection must be
+/// answered.  Runs alone, after everything else (the limit is the whole process's).
+fn fd_exhaustion(rt: &Arc<tokio::runtime::Runtime>, id: &str, mode: HandlerTaskMode, kit: Option<&TlsKit>) -> String {
+    let ctx = Ctx::new();
+    let server = start_opts(rt, &ctx, mode, kit.map(|k| k.server.clone()));
+    let addr = server.local_addr();
+    let probe = |addr: SocketAddr| -> bool {
+        match kit {
+            Some(k) => tls_health(addr, k),
+            None => health(addr),
+        }
+    };
+    let mut log: Vec<String> = Vec::new();
+    let before = probe(addr);
+    let open_now = std::fs::read_dir("/proc/self/fd").map(|d| d.count()).unwrap_or(64);
+    let mut old = libc::rlimit { rlim_cur: 0, rlim_max: 0 };
+    // SAFETY: plain libc calls on a local struct
+    unsafe { libc::getrlimit(libc::RLIMIT_NOFILE, &mut old) };
+    let lowered = libc::rlimit { rlim_cur: (open_now + 30) as libc::rlim_t, rlim_max: old.rlim_max };
+    unsafe { libc::setrlimit(libc::RLIMIT_NOFILE, &lowered) };
+    let mut burst: Vec<std::net::TcpStream> = Vec::new();
+    let mut exhausted = false;
+    for _ in 0..400 {
+        match std::net::TcpStream::connect_timeout(&addr, Duration::from_secs(2)) {
+            Ok(s) => burst.push(s),
+            Err(_) => {
+                exhausted = true;
+                break;
+            }
+        }
+    }
+    for _ in 0..4 {
+        burst.pop();
+        if let Ok(s) = std::net::TcpStream::connect_timeout(&addr, Duration::from_secs(2)) {
+            burst.push(s);
+        }
+        std::thread::sleep(Duration::from_millis(150));
+    }
+    std::thread::sleep(Duration::from_millis(400));
+    let n_burst = burst.len();
+    drop(burst);
+    unsafe { libc::setrlimit(libc::RLIMIT_NOFILE, &old) };
+    log.push("F1:disc".to_string());
+    std::thread::sleep(Duration::from_millis(400));
+    let mut ok = false;
+    for _ in 0..3 {
+        if probe(addr) {
+            ok = true;
+            break;
+        }
+        std::thread::sleep(Duration::from_millis(300));
+    }
+    log.push(format!("H{}", ok as u8));
+    let closed = rt.block_on(async { tokio::time::timeout(Duration::from_secs(40), server.close()).await })
+        .map(|r| r.is_ok())
+        .unwrap_or(false);
+    eprintln!("fd exhaustion {}: {} open before, {} burst connections, exhausted={} health before={} after={}", id, open_now, n_burst, exhausted, before, ok);
+    // a run in which the descriptors were never exhausted says nothing about the property:
+    // its id starts with `xn` and the driver gives no verdict on it
+    format!(
+        "seq {}{} {} n=1 {} => health={} closed={} unconnected=0",
+        if exhausted { "" } else { "xn" },
+        id,
+        mode_name(mode),
+        log.join(","),
+        (ok && before) as u8,
+        closed as u8,
+    )
+}
+
 fn gen_hold(rng: &mut Rng) -> Vec<u8> {
     match rng.below(6) {
         0 | 1 => Vec::new(),
@@ -1039,5 +1113,10 @@ fn main() {
             writeln!(out, "{}", l).unwrap();
         }
     }
+    // descriptor exhaustion, alone in the process
+    for (i, &m) in modes.iter().enumerate() {
+        writeln!(out, "{}", fd_exhaustion(&rt, &format!("x{}", i + 1), m, None)).unwrap();
+    }
+    writeln!(out, "{}", fd_exhaustion(&rt, "xt1", modes[0], Some(&kit))).unwrap();
     out.flush().unwrap();
 }
